@@ -62,6 +62,9 @@ class NoiseModel:
         if noise_type == 'depol' and not isinstance(noise_params, float):
             raise ValueError(f"For depolarization noise, the expected parameter must be a single float")
 
+        # Gate names are upper case (see Gate): an error given for "x" is meant for the X gates of a circuit
+        abs_gate = abs_gate.upper()
+
         if abs_gate in self._quantum_errors:
             if noise_type not in {nt for nt, np in self._quantum_errors[abs_gate]}:
                 self._quantum_errors[abs_gate] += [(noise_type, noise_params)]
